@@ -475,6 +475,24 @@ func checkHandOver(c *core.Ctx, r *core.Report) {
 			"the unrotated snapshot must be taken first: a segment rotating between the two reads is then in at least one of them")
 	}
 	r.Floor("ORDER", "functions taking both segment snapshots", n, 2)
+
+	// the same for the column-set snapshots: open-segment columns first, rotated-segment columns second
+	pairs := [][2]types.Object{
+		{c.Obj(pkgWriter, "CollectUnrotatedColumnsForTheIndexesByTimeRange"), c.Obj(pkgMeta, "CollectColumnsForTheIndexesByTimeRange")},
+		{c.Obj(pkgWriter, "GetUnrotatedColumnsForTheIndexesByTimeRange"), c.Obj(pkgMeta, "GetColumnsForTheIndexesByTimeRange")},
+	}
+	nc := 0
+	for _, fn := range c.RepoFunctions() {
+		for _, pr := range pairs {
+			if len(callsTo(fn, pr[0])) == 0 || len(callsTo(fn, pr[1])) == 0 {
+				continue
+			}
+			nc++
+			checkOrder(c, r, fn, "open-segment columns ("+pr[0].Name()+")", directPred(objs(pr[0])), "rotated-segment columns ("+pr[1].Name()+")", directPred(objs(pr[1])), 1,
+				"the open-segment columns must be read first: the columns of a segment that rotates between the two reads are then in at least one of them (rotation adds to the rotated table before it removes from the open one)")
+		}
+	}
+	r.Floor("ORDER", "functions taking both column snapshots", nc, 2)
 }
 
 var _ = types.Universe
